@@ -240,6 +240,29 @@ theorem frame_spec (c : PCfg) (s : PState) (motion : Bool) (f : Faults) :
   simp only [hasStop_append, hasStartOk_append, hasCan_append, hasStartAny_append, mwf_append, *]
   simp
 
+theorem attempt_pre (c : PCfg) (s : PState) (motion : Bool) : attempt c (pre s) motion = attempt c s motion := rfl
+theorem starts_pre (c : PCfg) (s : PState) (motion : Bool) (f : Faults) :
+    starts c (pre s) motion f = starts c s motion f := rfl
+theorem rec1_pre (c : PCfg) (s : PState) (motion : Bool) (f : Faults) :
+    rec1 c (pre s) motion f = rec1 c s motion f := rfl
+
+/-- one accepted frame, start to end, in terms of the summary functions -/
+theorem frame_summary (c : PCfg) (s : PState) (motion : Bool) (f : Faults) :
+    hasStartOk (PState.step c s (.frame motion f)).2 = starts c (pre s) motion f ∧
+    hasStop (PState.step c s (.frame motion f)).2 = stops c (pre s) motion f ∧
+    (PState.step c s (.frame motion f)).1.isRec = (rec1 c (pre s) motion f && !stops c (pre s) motion f) ∧
+    (PState.step c s (.frame motion f)).1.triggered =
+      (if stops c (pre s) motion f then 0 else if motion then s.triggered + 1 else 0) ∧
+    (PState.step c s (.frame motion f)).1.framesWritten =
+      (if rec1 c (pre s) motion f then (if stops c (pre s) motion f then 0 else s.framesWritten + 1)
+       else s.framesWritten) ∧
+    (PState.step c s (.frame motion f)).1.writeUntil =
+      (if rec1 c (pre s) motion f then (if stops c (pre s) motion f then 0 else wu1 c (pre s) motion f)
+       else s.writeUntil) := by
+  obtain ⟨f1, f2, _, _, _, f6, f7, f8, f9, _, _⟩ := frame_spec c s motion f
+  obtain ⟨p1, _, _, p4, p5, p6, p7, p8, _, _⟩ := process_spec c (pre s) motion f
+  exact ⟨f2.trans p1, f1.trans p4, f6.trans p5, f9.trans p6, f7.trans p7, f8.trans p8⟩
+
 /-! ## C04 invariant -/
 
 structure I4 (s : PState) (m : M4) : Prop where
@@ -438,7 +461,8 @@ theorem i3_step (c : PCfg) (hmm : c.minF ≤ c.maxF) (s : PState) (m : M3) (ev :
         split <;> simp_all [mwf_cons, mwf_nil]
     · refine ⟨⟨s.n, ?_⟩, ?_, ?_, ?_, ?_, ?_⟩
       · have := rbase_mark hw
-        simpa [PState.step, processBad, andThen, stopRecording, stopConstantRecorder, hA] using this
+        cases hc : c.constOn <;>
+          simpa [PState.step, processBad, andThen, stopRecording, stopConstantRecorder, hA, hc] using this
       all_goals
         simp_all [PState.step, processBad, andThen, stopRecording, stopConstantRecorder, M3.step,
           motionWriteFault_eq, mwf_cons, mwf_nil, mwf_append] <;>
@@ -454,9 +478,10 @@ theorem i3_step (c : PCfg) (hmm : c.minF ≤ c.maxF) (s : PState) (m : M3) (ev :
       all_goals
         simp_all [PState.step, stopRecording, M3.step, motionWriteFault_eq, mwf_cons, mwf_nil]
   | testReq =>
-    obtain ⟨⟨mark, hring⟩, ht, hf, ho, hidle, hrec⟩ := h
-    refine ⟨⟨mark, ?_⟩, ?_, ?_, ?_, ?_, ?_⟩ <;>
-      simp_all [PState.step, M3.step, motionWriteFault_eq, mwf_nil]
+    have hm : M3.step c.minF c.maxF m ⟨.testReq, (PState.step c s .testReq).2⟩ = m := by
+      simp [PState.step, M3.step, motionWriteFault_eq, mwf_nil]
+    rw [hm]
+    exact ⟨h.ring, h.taint, h.fails, h.openEq, h.idle, h.recd⟩
 
 theorem i3_init (c : PCfg) (hK : 0 < c.K) : I3 c (PState.init c) {} := by
   refine ⟨⟨0, rbase_init c.K hK⟩, ?_, ?_, ?_, ?_, ?_⟩ <;> simp [PState.init]
@@ -470,5 +495,119 @@ theorem i3_trace (c : PCfg) (hmm : c.minF ≤ c.maxF) (evs : List Ev) (s : PStat
     simp only [PState.after, PState.trace, List.foldl_cons]
     exact ih _ _ (fun ev hev => hw ev (List.mem_cons_of_mem _ hev))
       (i3_step c hmm s m e (hw e (List.mem_cons_self ..)) h)
+
+/-! ## sustained motion -/
+
+/-- a motion frame while a recording is open -/
+theorem rec_motion_step (c : PCfg) (s : PState) (f : Faults) (hrec : s.isRec = true) :
+    hasStartOk (PState.step c s (.frame true f)).2 = false ∧
+    hasStop (PState.step c s (.frame true f)).2
+      = decide (min (s.framesWritten + c.minF) c.maxF ≤ s.framesWritten + 1) ∧
+    (PState.step c s (.frame true f)).1.isRec
+      = !decide (min (s.framesWritten + c.minF) c.maxF ≤ s.framesWritten + 1) ∧
+    (PState.step c s (.frame true f)).1.framesWritten
+      = if decide (min (s.framesWritten + c.minF) c.maxF ≤ s.framesWritten + 1) then 0 else s.framesWritten + 1 := by
+  obtain ⟨h1, h2, h3, _, h5, _⟩ := frame_summary c s true f
+  have hs : starts c (pre s) true f = false := by rw [starts_pre]; simp [starts, attempt, hrec]
+  have hr : rec1 c (pre s) true f = true := by rw [rec1_pre]; simp [rec1, hrec]
+  have hw : wu1 c (pre s) true f = min (s.framesWritten + c.minF) c.maxF := by simp [wu1, pre, hrec]
+  have hst : stops c (pre s) true f = decide (min (s.framesWritten + c.minF) c.maxF ≤ s.framesWritten + 1) := by
+    unfold stops; rw [hr, hw]; exact Bool.true_and _
+  rw [h1, h2, h3, h5, hs, hr, hst]
+  simp
+
+/-- a motion frame that starts a recording (no write faults, gate open) -/
+theorem start_step (c : PCfg) (s : PState) (f : Faults) (mark : Nat) (hring : RBase c.K s.ring s.n mark)
+    (hrec : s.isRec = false) (hfw : s.framesWritten = 0) (htrig : c.trig ≤ s.triggered + 1)
+    (hgate : f.win = true ∧ f.can = true ∧ f.mStart = true) (hfz : f.mWriteFail = 0) :
+    hasStartOk (PState.step c s (.frame true f)).2 = true ∧
+    hasStop (PState.step c s (.frame true f)).2 = decide (c.minF ≤ 1) ∧
+    (PState.step c s (.frame true f)).1.isRec = !decide (c.minF ≤ 1) ∧
+    (PState.step c s (.frame true f)).1.framesWritten = if decide (c.minF ≤ 1) then 0 else 1 := by
+  obtain ⟨h1, h2, h3, _, h5, _⟩ := frame_summary c s true f
+  have hs : starts c (pre s) true f = true := by
+    rw [starts_pre]; simp [starts, attempt, hrec, htrig, hgate.1, hgate.2.1, hgate.2.2]
+  have hr : rec1 c (pre s) true f = true := by rw [rec1, hs]; simp
+  have hw : wu1 c (pre s) true f = c.minF := by
+    have hh : (pre s).ring.history = some _ := rbase_history hring
+    unfold wu1 startWU
+    rw [hs, hh]
+    simp [pre, hrec, hfz, pt_nofault]
+  have hst : stops c (pre s) true f = decide (c.minF ≤ 1) := by
+    unfold stops; rw [hr, hw]
+    have : (pre s).framesWritten = 0 := hfw
+    rw [this]; simp
+  rw [h1, h2, h3, h5, hs, hr, hst, hfw]
+  simp
+
+/-- the sustained-motion event -/
+abbrev fr : Ev := .frame true {}
+
+theorem sustained_tail (c : PCfg) (h2 : 2 ≤ c.minF) : ∀ (j : Nat) (s : PState),
+    s.isRec = true → s.framesWritten + (j + 1) = c.maxF →
+    (PState.trace c s (List.replicate (j + 1) fr)).map (fun st => hasStartOk st.obs) = List.replicate (j + 1) false ∧
+    (PState.trace c s (List.replicate (j + 1) fr)).map (fun st => hasStop st.obs) = List.replicate j false ++ [true] ∧
+    (∀ i, i ≤ j → (PState.after c s (List.replicate i fr)).isRec = true ∧
+      (PState.after c s (List.replicate i fr)).framesWritten = s.framesWritten + i) ∧
+    (PState.after c s (List.replicate (j + 1) fr)).isRec = false := by
+  intro j
+  induction j with
+  | zero =>
+    intro s hrec hk
+    obtain ⟨a1, a2, a3, _⟩ := rec_motion_step c s {} hrec
+    have hd : min (s.framesWritten + c.minF) c.maxF ≤ s.framesWritten + 1 := by omega
+    simp only [hd, decide_true] at a2 a3
+    refine ⟨?_, ?_, ?_, ?_⟩
+    · simp [PState.trace, fr, a1]
+    · simp [PState.trace, fr, a2]
+    · intro i hi
+      have : i = 0 := by omega
+      subst this
+      simp [PState.after, hrec]
+    · simpa [PState.after, fr] using a3
+  | succ j ih =>
+    intro s hrec hk
+    obtain ⟨a1, a2, a3, a4⟩ := rec_motion_step c s {} hrec
+    have hd : ¬ min (s.framesWritten + c.minF) c.maxF ≤ s.framesWritten + 1 := by omega
+    simp only [hd, decide_false, Bool.not_false, if_false, Bool.false_eq_true] at a2 a3 a4
+    obtain ⟨b1, b2, b3, b4⟩ := ih (PState.step c s fr).1 a3 (by rw [a4]; omega)
+    refine ⟨?_, ?_, ?_, ?_⟩
+    · rw [List.replicate_succ, PState.trace, List.map_cons, b1, a1]; rfl
+    · rw [List.replicate_succ, PState.trace, List.map_cons, b2, a2]; rfl
+    · intro i hi
+      cases i with
+      | zero => simp [PState.after, hrec]
+      | succ i =>
+        obtain ⟨e1, e2⟩ := b3 i (by omega)
+        rw [List.replicate_succ, PState.after]
+        refine ⟨e1, ?_⟩
+        rw [e2, a4]; omega
+    · rw [List.replicate_succ, PState.after]; exact b4
+
+/-- sustained motion from a non-recording state whose motion run is about to reach `trig` -/
+theorem sustained (c : PCfg) (h2 : 2 ≤ c.minF) (j : Nat) (hj : c.maxF = j + 2) (s : PState) (mark : Nat)
+    (hring : RBase c.K s.ring s.n mark) (hrec : s.isRec = false) (hfw : s.framesWritten = 0)
+    (htrig : c.trig ≤ s.triggered + 1) :
+    (PState.trace c s (List.replicate (j + 2) fr)).map (fun st => hasStartOk st.obs)
+      = true :: List.replicate (j + 1) false ∧
+    (PState.trace c s (List.replicate (j + 2) fr)).map (fun st => hasStop st.obs)
+      = List.replicate (j + 1) false ++ [true] ∧
+    (∀ i, 1 ≤ i → i ≤ j + 1 → (PState.after c s (List.replicate i fr)).isRec = true ∧
+      (PState.after c s (List.replicate i fr)).framesWritten = i) ∧
+    (PState.after c s (List.replicate (j + 2) fr)).isRec = false := by
+  obtain ⟨a1, a2, a3, a4⟩ := start_step c s {} mark hring hrec hfw htrig ⟨rfl, rfl, rfl⟩ rfl
+  have hd : ¬ c.minF ≤ 1 := by omega
+  simp only [hd, decide_false, Bool.not_false, if_false, Bool.false_eq_true] at a2 a3 a4
+  obtain ⟨b1, b2, b3, b4⟩ := sustained_tail c h2 j (PState.step c s fr).1 a3 (by rw [a4]; omega)
+  refine ⟨?_, ?_, ?_, ?_⟩
+  · rw [List.replicate_succ, PState.trace, List.map_cons, b1, a1]
+  · rw [List.replicate_succ, PState.trace, List.map_cons, b2, a2]; rfl
+  · intro i h1 hi
+    obtain ⟨i, rfl⟩ : ∃ i', i = i' + 1 := ⟨i - 1, by omega⟩
+    obtain ⟨e1, e2⟩ := b3 i (by omega)
+    rw [List.replicate_succ, PState.after]
+    refine ⟨e1, ?_⟩
+    rw [e2, a4]; omega
+  · rw [List.replicate_succ, PState.after]; exact b4
 
 end TR.P03
